@@ -20,7 +20,7 @@ from lib import impl  # noqa: E402
 from lib.core import cN, cbool, cbytes, clist, cpair, ctor, vB, vL, vN  # noqa: E402, F401
 
 PROPERTY = "C01"
-GEN: list = []
+GEN: list = ["dbadd"]  # Gen/DbAdd.v: HashFileDB.add / add_update_tree / migrate decisions, tied to the model by Proofs/StoreOpsTie.v
 RULE = (
     "a case is a history of 3..8 (quick) / 3..20 (thorough) operations over 1-3 fresh stores, each "
     "LocalHashFileDB or HashFileDB with hash_name md5 / md5-dos2unix / sha256 (stores mostly share one "
